@@ -136,7 +136,14 @@ def build_type(dt):
         return fd.FloatRange(None if dt['min'] == -NOLIM else dt['min'] / U,
                              None if dt['max'] == NOLIM else dt['max'] / U, **kw)
     if k == 'int':
+        if dt['min'] == fd.DEFAULT_MIN_INT and dt['max'] == fd.DEFAULT_MAX_INT:
+            return fd.IntRange()                   # the default limits
         return fd.IntRange(dt['min'], dt['max'])
+    if k == 'command':
+        return fd.CommandType(None if dt['arg']['k'] == 'none' else build_type(dt['arg']),
+                              None if dt['res']['k'] == 'none' else build_type(dt['res']))
+    if k == 'none':
+        return None
     if k == 'gscaled':
         sc = SCALES[dt['sid']]
         kw = {}
@@ -166,17 +173,38 @@ def build_type(dt):
         return fd.BoolType()
     if k == 'enum':
         return fd.EnumType('e', **{m['n']: m['v'] for m in dt['mem']})
+    # where the shape allows it the short constructor forms are used (one length = exactly that size,
+    # no optional list = all members optional): they must denote the same type
     if k == 'string':
+        if dt.get('text'):
+            return fd.TextType(None if dt['maxc'] == NOLIM else dt['maxc'])
+        if dt['minc'] == dt['maxc'] and dt['minc'] > 0 and not dt['utf8']:
+            return fd.StringType(dt['minc'])
         return fd.StringType(dt['minc'], fd.UNLIMITED if dt['maxc'] == NOLIM else dt['maxc'], isUTF8=dt['utf8'])
     if k == 'blob':
+        if dt['minb'] == dt['maxb'] and dt['minb'] > 0:
+            return fd.BLOBType(dt['minb'])
         return fd.BLOBType(dt['minb'], dt['maxb'])
     if k == 'array':
+        if dt['minlen'] == dt['maxlen'] and dt['minlen'] > 0:
+            return fd.ArrayOf(build_type(dt['el']), dt['minlen'])
         return fd.ArrayOf(build_type(dt['el']), dt['minlen'], dt['maxlen'])
     if k == 'tuple':
+        if dt.get('limit'):
+            return fd.LimitsType(build_type(dt['els'][0]))
         return fd.TupleOf(*[build_type(e) for e in dt['els']])
     if k == 'struct':
-        return fd.StructOf(optional=list(dt['opt']), **{m['n']: build_type(m['t']) for m in dt['mem']})
+        members = {m['n']: build_type(m['t']) for m in dt['mem']}
+        if sorted(dt['opt']) == sorted(members):
+            return fd.StructOf(**members)
+        return fd.StructOf(optional=list(dt['opt']), **members)
     raise ValueError(k)
+
+
+def second_object(obj, dt):
+    """the other object every case is executed on: the type rebuilt from its description - or, for types holding a
+    LimitsType (described as a plain tuple, the ordering cannot be rebuilt), its copy()"""
+    return obj.copy() if has_limit(dt) else rebuild_type(obj)
 
 
 def rebuild_type(obj):
@@ -692,6 +720,14 @@ def show_type(dt):
         return 'scaled(%g,%g..%g)' % (dt['scale'] / U, dt['min'] / U, dt['max'] / U)
     if k == 'enum':
         return 'enum(%s)' % ','.join('%s=%d' % (m['n'], m['v']) for m in dt['mem'])
+    if k == 'command':
+        return 'command(%s -> %s)' % (show_type(dt['arg']), show_type(dt['res']))
+    if k == 'none':
+        return '-'
+    if k == 'string' and dt.get('text'):
+        return 'text(..%s)' % ('-' if dt['maxc'] == NOLIM else dt['maxc'])
+    if k == 'tuple' and dt.get('limit'):
+        return 'limits(%s)' % show_type(dt['els'][0])
     if k == 'string':
         return 'string(%d..%s%s)' % (dt['minc'], '-' if dt['maxc'] == NOLIM else dt['maxc'], ',utf8' if dt['utf8'] else '')
     if k == 'blob':
@@ -757,6 +793,8 @@ def rand_type(rnd, depth, open_strings=False, big=True):
     if k == 'string':
         lo = rnd.randint(0, 4)
         # (a string type with minchars > 0 and no maxchars is not rebuilt faithfully: C03's business)
+        if big and rnd.random() < 0.15:
+            return {'k': k, 'minc': 0, 'maxc': rnd.choice((NOLIM, rnd.randint(1, 40))), 'utf8': False, 'text': True}   # TextType
         nolim = rnd.random() < 0.3 and (lo == 0 or open_strings)
         return {'k': k, 'minc': lo, 'maxc': NOLIM if nolim else lo + rnd.randint(0, 5), 'utf8': rnd.random() < 0.5}
     if k == 'blob':
@@ -766,6 +804,11 @@ def rand_type(rnd, depth, open_strings=False, big=True):
         lo = rnd.randint(0, 2)
         return {'k': k, 'el': rand_type(rnd, depth - 1, open_strings, big), 'minlen': lo, 'maxlen': lo + rnd.randint(0 if lo else 1, 3)}
     if k == 'tuple':
+        if big and rnd.random() < 0.25:      # LimitsType over a numeric type
+            el = rand_type(rnd, 0, open_strings, big)
+            while el['k'] not in ('double', 'int', 'scaled', 'gscaled', 'bigint'):
+                el = rand_type(rnd, 0, open_strings, big)
+            return {'k': k, 'els': [el, el], 'limit': True}
         return {'k': k, 'els': [rand_type(rnd, depth - 1, open_strings, big) for _ in range(rnd.randint(1, 3))]}
     names = rnd.sample(['a', 'b', 'c'], rnd.randint(1, 3))
     return {'k': 'struct', 'mem': [{'n': n, 't': rand_type(rnd, depth - 1, open_strings, big)} for n in sorted(names)],
@@ -896,6 +939,9 @@ def _valid_internal(rnd, dt, n=None):
             n = rnd.randint(dt['minlen'], dt['maxlen'])
         return {'j': 'list', 'xs': [_valid_internal(rnd, dt['el']) for _ in range(n)]}
     if k == 'tuple':
+        if dt.get('limit'):
+            x = _valid_internal(rnd, dt['els'][0])
+            return {'j': 'list', 'xs': [x, x]}
         return {'j': 'list', 'xs': [_valid_internal(rnd, e) for e in dt['els']]}
     return {'j': 'obj', 'kv': [{'k': m['n'], 'v': _valid_internal(rnd, m['t'])} for m in dt['mem']
                                if m['n'] not in dt['opt'] or rnd.random() < 0.7]}
@@ -947,7 +993,8 @@ def rand_valid(rnd, dt, obj):
     if k == 'array':
         return tuple(rand_valid(rnd, dt['el'], obj.members) for _ in range(rnd.randint(dt['minlen'], dt['maxlen'])))
     if k == 'tuple':
-        return tuple(rand_valid(rnd, e, o) for e, o in zip(dt['els'], obj.members))
+        v = tuple(rand_valid(rnd, e, o) for e, o in zip(dt['els'], obj.members))
+        return tuple(sorted(v)) if dt.get('limit') else v
     fd = frappy()
     return fd.ImmutableDict({m['n']: rand_valid(rnd, m['t'], obj.members[m['n']]) for m in dt['mem']
                              if m['n'] not in dt['opt'] or rnd.random() < 0.6})
@@ -1154,7 +1201,22 @@ def deco(dt, unit='', fmt='%g', dflt=True):
         return dict(dt, els=[deco(e, unit, fmt, dflt) for e in dt['els']])
     if k == 'struct':
         return dict(dt, mem=[{'n': m['n'], 't': deco(m['t'], unit, fmt, dflt)} for m in dt['mem']])
+    if k == 'command':
+        return dict(dt, arg=deco(dt['arg'], unit, fmt, dflt), res=deco(dt['res'], unit, fmt, dflt))
     return dt
+
+
+def has_limit(dt):
+    k = dt['k']
+    if k == 'tuple':
+        return bool(dt.get('limit')) or any(has_limit(e) for e in dt['els'])
+    if k == 'array':
+        return has_limit(dt['el'])
+    if k == 'struct':
+        return any(has_limit(m['t']) for m in dt['mem'])
+    if k == 'command':
+        return has_limit(dt['arg']) or has_limit(dt['res'])
+    return False
 
 
 def info_abs(x, keep_order=False):
@@ -1224,9 +1286,15 @@ def mutate_everything(obj):
         sp(obj, 'minbytes', obj.minbytes + 1)
         sp(obj, 'maxbytes', obj.maxbytes + 1)
     elif isinstance(obj, fd.ArrayOf):
+        if getattr(obj.members, 'unit', None) is not None and 'unit' in obj.getProperties():
+            sp(obj, 'unit', 'via-array')          # ArrayOf.setProperty hands unknown keys to its members
         done += mutate_everything(obj.members)
-        fd.DataType.setProperty(obj, 'minlen', obj.minlen + 1)
-        fd.DataType.setProperty(obj, 'maxlen', obj.maxlen + 2)
+        sp(obj, 'minlen', obj.minlen + 1)
+        sp(obj, 'maxlen', obj.maxlen + 2)
+    elif isinstance(obj, fd.CommandType):
+        for sub in (obj.argument, obj.result):
+            if sub is not None:
+                done += mutate_everything(sub)
     elif isinstance(obj, fd.TupleOf):
         for m in obj.members:
             done += mutate_everything(m)
@@ -1263,8 +1331,9 @@ def equiv_records(dt, probes, extra=None):
     d2x = attempt('rebuiltx', lambda: fd.get_datatype(_with_unknown(info)))
     d3 = attempt('copy', obj.copy)
     diff = []
-    trio = [objs.get(n) for n in ('orig', 'rebuilt', 'copy')]
-    if all(o is not None for o in trio):
+    # (a LimitsType is described as a tuple: the rebuilt type cannot know about the ordering, compare with the copy only)
+    trio = [objs.get(n) for n in (('orig', 'copy', 'copy') if has_limit(dt) else ('orig', 'rebuilt', 'copy'))]
+    if dt['k'] != 'command' and all(o is not None for o in trio):
         for c in probes:
             for path in ('wire', 'write'):
                 outs = []
@@ -1324,4 +1393,11 @@ def compat_children(a, b):
     if a['k'] == 'struct' and b['k'] == 'struct':
         bm = {m['n']: m['t'] for m in b['mem']}
         return [(m['t'], bm[m['n']]) for m in a['mem'] if m['n'] in bm]
+    if a['k'] == 'command' and b['k'] == 'command':
+        res = []
+        if a['arg']['k'] != 'none' and b['arg']['k'] != 'none':
+            res.append((a['arg'], b['arg']))
+        if a['res']['k'] != 'none' and b['res']['k'] != 'none':
+            res.append((b['res'], a['res']))        # the result goes the other way
+        return res
     return []
